@@ -1,5 +1,5 @@
 /-
-  `c02 pkgbridge plain=… wbplain=… links=… model=… cmt=…`  -> ok | differs <what>   ## counts
+  `c02 pkgbridge plain=… wbplain=… links=… model=… cmt=… tbl=…`  -> ok | differs <what>   ## counts
 
   Ties the package model of `Umya/Model/PackageNode.lean` (theorems `C02_content_types_cover`,
   `C02_package_rels_resolve`, `C02_rel_ids_unique`, `C02_package_no_diagnostics`, `C02_book_decodes`) to the package just
@@ -26,12 +26,19 @@
   the counter after the hyperlink loop; none without comments).  The trees of the comments / VML parts are tied by
   C06's `cmt` requests, not here.
 
+  SHEETS WITH TABLES (`Umya/Model/PackageNodeTbl.lean`, theorems `C02_tbl_*` of `Thm/C02PkgTbl.lean`): `tbl=` gives the
+  number of tables per sheet; `plain=` now says that nothing but comments AND TABLES adds parts.  The model skeleton is
+  `skeletonT`: the table parts `xl/tables/table{n}.xml` numbered by ONE counter over the sheets (`tableNums`), their
+  content type and Overrides, per sheet one `table` relationship per table BETWEEN the vmlDrawing and the comments
+  relationship (the comments id shifted by the number of tables); the `<tableParts>` child of every real sheet part is
+  compared with `tablePartsNodes` (count, the `r:id`s in order).  The table TREES are not compared here.
+
   A workbook / sheet that is not plain has further parts, Defaults, Overrides and relationships: there the model
   skeleton (without any comments part) must be CONTAINED in the real one, the relationships part of a sheet that is
   not plain or has comments is not compared, and the rest is counted `outside-model`.
 -/
 import Umya.Driver.C02Sheet
-import Umya.Model.PackageNodeCmt
+import Umya.Model.PackageNodeTbl
 namespace Umya.Driver.C02Pkg
 open Umya.Spec.Xml Umya.Spec.Sml Umya.Proto Umya.CellXml Umya.CellNode Umya.SheetNode Umya.WorkbookNode Umya.PackageNode
 open Umya.Driver.C02Sheet (Out canon parseListOf parseLink)
@@ -43,6 +50,7 @@ def kindOf (name : List Char) : String :=
   else if name = nContentTypes then "content-types"
   else if "xl/drawings/vmlDrawing".toList.isPrefixOf name then "vml"
   else if "xl/comments".toList.isPrefixOf name then "comments"
+  else if "xl/tables/table".toList.isPrefixOf name then "table"
   else if isRelsNameL name then "sheet-rels" else "sheet"
 
 def relKey (id type target : String) (ext : Bool) : String := s!"{id}|{type}|{target}|{ext}"
@@ -52,7 +60,7 @@ def sorted (l : List String) : List String := Umya.Driver.C02.sortStrings l
 def subsetOf (a b : List String) : Bool := a.all (fun x => b.contains x)
 
 def bridge (parts : Package) (plain : List Bool) (wbplain : Bool) (links : List (List LinkW)) (model : List (List Umya.Driver.C02.CellT))
-    (cmt : List Bool) : String :=
+    (cmt : List Bool) (tbl : List Nat) : String :=
   let F := Umya.Num.textFmt []
   match writeBook F false model with
   | none => "differs the writer model panics on the in-memory cells"
@@ -64,12 +72,27 @@ def bridge (parts : Package) (plain : List Bool) (wbplain : Bool) (links : List 
     let flags : List Bool := if allPlain ∧ cmt.length = n then cmt else List.replicate n false
     let anyCmt := flags.any id
     let nums := numbering [] [] flags
-    let skel := skeletonC links flags hasSst
+    -- TABLES (`Umya/Model/PackageNodeTbl.lean`): the number of tables per sheet; outside the model none is modelled
+    let tcounts : List Nat := if allPlain ∧ tbl.length = n then tbl else List.replicate n 0
+    let anyTbl := tcounts.any (· != 0)
+    let tnums := tableNums 0 tcounts
+    let skel := skeletonT links flags tcounts hasSst
     let o : Out := {}
     let o := if plain.length = n ∧ model.length = n ∧ cmt.length = n then o else o.diff "sheet counts differ between plain / links / model / cmt"
     let o := o.count (if allPlain then (if anyCmt then "workbook.with-comments" else "workbook.plain") else "workbook.outside-model")
     let o := if allPlain then o.count s!"sheets-with-comments.{(flags.filter id).length}" else o
     let o := if allPlain ∧ anyCmt ∧ flags.head? = some false then o.count "comments.first-sheet-without" else o
+    let o := if allPlain ∧ tbl.length ≠ n then o.diff "sheet counts differ between links / tbl" else o
+    let o := if allPlain then o.count (if anyTbl then "workbook.with-tables" else "workbook.without-tables") else o
+    let o := if allPlain ∧ anyTbl then o.count s!"sheets-with-tables.{(tcounts.filter (· != 0)).length}" else o
+    let o := if allPlain ∧ anyTbl then o.count "tables.total" tnums.flatten.length else o
+    let o := if allPlain then (List.range n).foldl (fun (o : Out) i =>
+      match tcounts.getD i 0 != 0, flags.getD i false with
+      | true, true => o.count "sheet.tables-and-comments"
+      | true, false => o.count "sheet.tables-only"
+      | false, true => o.count "sheet.comments-only"
+      | false, false => o.count "sheet.neither") o else o
+    let o := if allPlain ∧ (tcounts.filter (· != 0)).length ≥ 2 then o.count "tables.on-several-sheets" else o
     let o := o.count s!"sheets.{n}"
     let o := o.count (if hasSst then "sst.present" else "sst.absent")
     -- which sheets are plain (1-based K)
@@ -115,7 +138,7 @@ def bridge (parts : Package) (plain : List Bool) (wbplain : Bool) (links : List 
     let o := match (parts.part? "[Content_Types].xml").bind (·.xml) with
       | none => o.diff "[Content_Types].xml missing or malformed"
       | some root =>
-        let m := contentTypesNodeC n hasSst (nums.filterMap (fun p => p.map (·.1))) (nums.filterMap (fun p => p.map (·.2)))
+        let m := contentTypesNodeT n hasSst (nums.filterMap (fun p => p.map (·.1))) (nums.filterMap (fun p => p.map (·.2))) tnums.flatten
         let dR := sorted ((root.kids "Default").map canon)
         let dM := sorted ((m.kids "Default").map canon)
         let ovR := sorted ((root.kids "Override").map canon)
@@ -142,19 +165,35 @@ def bridge (parts : Package) (plain : List Bool) (wbplain : Bool) (links : List 
           let o := o.count (if want.isEmpty then "legacyDrawing.absent" else "legacyDrawing.present")
           if real = want then o
           else o.diff s!"legacyDrawing of {nm}: model {want.map (fun x => x.map String.ofList)} file {real.map (fun x => x.map String.ofList)}") o
+    -- the `<tableParts>` child of every real sheet part against the model's: count and the `r:id`s in order
+    let o := if !allPlain then o else
+      (List.range n).foldl (fun (o : Out) i =>
+        let nm := String.ofList (sheetPartL (i + 1))
+        let t := tcounts.getD i 0
+        let wantN := tablePartsNodes (links.getD i []) (flags.getD i false) t
+        let want : List (Option (List Char) × List (Option (List Char))) :=
+          wantN.map (fun tp => (tp.attr? "count".toList, (tp.kids "tablePart").map (fun k => k.attr? "r:id".toList)))
+        match (parts.part? nm).bind (·.xml) with
+        | none => o
+        | some root =>
+          let real := (root.kids "tableParts").map (fun tp => (tp.attr? "count".toList, (tp.kids "tablePart").map (fun k => k.attr? "r:id".toList)))
+          let o := o.count (if t = 0 then "tableParts.absent" else "tableParts.present")
+          let o := o.count "tablePart.rid" t
+          if real = want ∧ (want.flatMap (·.2)) = (tablePartIds (links.getD i []) (flags.getD i false) t).map some then o
+          else o.diff s!"tableParts of {nm}: model {want.map (fun x => x.2.map (fun y => y.map String.ofList))} file {real.map (fun x => x.2.map (fun y => y.map String.ofList))}") o
     let info := " ".intercalate (o.counts.map (fun p => s!"{p.1}={p.2}"))
     if o.diffs.isEmpty then s!"ok ## {info}" else s!"differs {" | ".intercalate (o.diffs.take 3)} ## {info}"
 
 def handle (parts : Package) (args : List String) : String :=
   match args with
-  | [plain, wbplain, links, model, cmt] =>
+  | [plain, wbplain, links, model, cmt, tbl] =>
     let dp := Umya.Driver.C01.dropPrefix?
-    match dp "plain=" plain, dp "wbplain=" wbplain, dp "links=" links, dp "model=" model, dp "cmt=" cmt with
-    | some p, some w, some l, some md, some c =>
-      match (l.splitOn "|").mapM (parseListOf parseLink), Umya.Driver.C02.parseModel md with
-      | some ls, some model => bridge parts ((p.splitOn "|").map (· = "1")) (w = "1") (ls.map sortLinks) model ((c.splitOn "|").map (· = "1"))
-      | _, _ => "bad-op"
-    | _, _, _, _, _ => "bad-op"
+    match dp "plain=" plain, dp "wbplain=" wbplain, dp "links=" links, dp "model=" model, dp "cmt=" cmt, dp "tbl=" tbl with
+    | some p, some w, some l, some md, some c, some t =>
+      match (l.splitOn "|").mapM (parseListOf parseLink), Umya.Driver.C02.parseModel md, (t.splitOn "|").mapM (fun x => x.toNat?) with
+      | some ls, some model, some tc => bridge parts ((p.splitOn "|").map (· = "1")) (w = "1") (ls.map sortLinks) model ((c.splitOn "|").map (· = "1")) tc
+      | _, _, _ => "bad-op"
+    | _, _, _, _, _, _ => "bad-op"
   | _ => "bad-op"
 
 end Umya.Driver.C02Pkg
